@@ -26,6 +26,13 @@ class HttpLike(Exception):
     description = "not found: TOP-SECRET-7"
 
 
+import asyncio as _asyncio
+import builtins as _builtins
+
+NotImplementedError_builtin = _builtins.NotImplementedError
+asyncio_TimeoutError = _asyncio.TimeoutError
+
+
 def body_factory(tier, seed):
     def body(rep, support_ok):
         import ocpp.exceptions as ex
@@ -73,13 +80,18 @@ def body_factory(tier, seed):
         # non-OCPP exceptions: InternalError, nothing of the exception on the wire
         others = [RuntimeError("TOP-SECRET-1"), ValueError("TOP-SECRET-2"), KeyError("TOP-SECRET-3"), ZeroDivisionError("TOP-SECRET-4"),
                   AttrError("TOP-SECRET-5"), OSError(5, "TOP-SECRET-6"), HttpLike(), AssertionError("TOP-SECRET-8"), LookupError(),
-                  type("Custom", (Exception,), {"__str__": lambda self: "TOP-SECRET-9"})()]
-        for e in others:
+                  type("Custom", (Exception,), {"__str__": lambda self: "TOP-SECRET-9"})(),
+                  TypeError("TOP-SECRET-10"), NotImplementedError_builtin("TOP-SECRET-11"), RecursionError("TOP-SECRET-12"),
+                  UnicodeDecodeError("utf-8", b"TOP-SECRET-13", 0, 1, "TOP-SECRET-13"), StopIteration("TOP-SECRET-14"),
+                  IndexError("TOP-SECRET-15"), asyncio_TimeoutError("TOP-SECRET-16")]
+        # every exception type from a coroutine handler and from a plain function handler (the two are awaited /
+        # called at different places of _handle_call)
+        for e, h_async in [(e, a) for e in others for a in (True, False)]:
             def behave(kwargs, _e=e):
                 raise _e
-            res = N.run_loopback("1.6", "Heartbeat", req, behave, suppress=False)
-            rep.count("other:" + type(e).__name__)
-            replay = {"kind": "other-exception", "exception": type(e).__name__,
+            res = N.run_loopback("1.6", "Heartbeat", req, behave, suppress=False, handler_async=h_async)
+            rep.count("other:%s:%s" % (type(e).__name__, "async" if h_async else "sync"))
+            replay = {"kind": "other-exception", "exception": type(e).__name__, "handler_async": h_async,
                       "observation": {k: (v if k != "outcome" else v[:3]) for k, v in res.items() if k != "frames"}}
             oc = res["outcome"]
             if not (oc[0] == "ocpp" and oc[1][0] == "InternalError"):
@@ -175,6 +187,24 @@ def replay(d):
         want_d = d["description"] if d["description"] is not None else cls.default_description
         want_x = d["details"] if d["details"] is not None else {}
         ok = (oc[0] == "none") if d["suppress"] else (oc[0] == "ocpp" and oc[1][0] == d["class"] and oc[1][1] == want_d and O.same_value(oc[1][2], want_x))
+        print("HOLDS" if ok else "FAILS")
+        return 0 if ok else 1
+    if d.get("kind") == "other-exception":
+        import builtins
+        excs = {"TimeoutError": asyncio_TimeoutError}
+        cls = excs.get(d["exception"]) or getattr(builtins, d["exception"], RuntimeError)
+
+        def behave(kwargs):
+            try:
+                e = cls("TOP-SECRET-R")
+            except TypeError:
+                e = RuntimeError("TOP-SECRET-R")
+            raise e
+        res = N.run_loopback("1.6", "Heartbeat", call.Heartbeat(), behave, suppress=False, handler_async=d.get("handler_async", True))
+        oc = res["outcome"]
+        leaked = [m for (_, _, m) in res["frames"] if "TOP-SECRET" in m]
+        print("caller outcome:", oc[:2], "reply:", res["reply"], "leaked:", bool(leaked))
+        ok = oc[0] == "ocpp" and oc[1][0] == "InternalError" and not leaked
         print("HOLDS" if ok else "FAILS")
         return 0 if ok else 1
     if d.get("kind") == "history":
